@@ -264,7 +264,9 @@ func (g *Gen) wrap(term string, t types.Type, general bool) string {
 	m := pow2(intBits(t))
 	if general {
 		g.uses["nia"] = true
-		return fmt.Sprintf("(+ %s (mod (- %s %s) %s))", smtInt(lo), term, smtInt(lo), m.String())
+		n := g.freshConst("w", "Int")
+		g.addFact("(= " + n + " " + term + ")")
+		return fmt.Sprintf("(ite (and (<= %[2]s %[1]s) (<= %[1]s %[3]s)) %[1]s (+ %[2]s (mod (- %[1]s %[2]s) %[4]s)))", n, smtInt(lo), smtInt(hi), m.String())
 	}
 	n := g.freshConst("w", "Int")
 	g.addFact("(= " + n + " " + term + ")")
@@ -596,7 +598,26 @@ func (g *Gen) sliceOp(in *ssa.Slice, st *State, reach string) {
 		if x.LV != nil {
 			g.fail(in.Pos(), "slicing a local array that is not heap-modelled")
 		}
-		g.define(in, fmt.Sprintf("(mk-slice %[1]s %[2]s (- %[3]s %[2]s) (- %[4]s %[2]s))", x.S, lo, hi, capv))
+		sv := g.define(in, fmt.Sprintf("(mk-slice %[1]s %[2]s (- %[3]s %[2]s) (- %[4]s %[2]s))", x.S, lo, hi, capv))
+		loC, hiC := int64(0), at.Len()
+		known := true
+		if in.Low != nil {
+			if c, ok := constInt(in.Low); ok && c.IsInt64() {
+				loC = c.Int64()
+			} else {
+				known = false
+			}
+		}
+		if in.High != nil {
+			if c, ok := constInt(in.High); ok && c.IsInt64() {
+				hiC = c.Int64()
+			} else {
+				known = false
+			}
+		}
+		if known && hiC >= loC {
+			g.constLen[sv.S] = hiC - loC
+		}
 	default:
 		g.fail(in.Pos(), "Slice on %s", in.X.Type())
 	}
@@ -606,7 +627,7 @@ func (g *Gen) makeSlice(in *ssa.MakeSlice, st *State, reach string) {
 	ln := g.val(in.Len, st).S
 	cp := g.val(in.Cap, st).S
 	et := in.Type().Underlying().(*types.Slice).Elem()
-	limit := "4611686018427387904"
+	limit := "140737488355328"
 	if v, ok := g.con.Opts["make-limit"]; ok {
 		limit = smtIntS(v)
 	}
@@ -616,7 +637,10 @@ func (g *Gen) makeSlice(in *ssa.MakeSlice, st *State, reach string) {
 	r := g.newRef(st, in.Name())
 	h := g.heapGet(st, k, s)
 	st.heaps[k] = g.nameHeap(k, s, "(store "+h+" "+r+" ((as const (Array Int "+g.sortOf(et)+")) "+g.zero(et)+"))")
-	g.define(in, "(mk-slice "+r+" 0 "+ln+" "+cp+")")
+	sv := g.define(in, "(mk-slice "+r+" 0 "+ln+" "+cp+")")
+	if cl, ok := constInt(in.Len); ok && cl.IsInt64() {
+		g.constLen[sv.S] = cl.Int64()
+	}
 }
 
 // rune/byte slice <-> string conversions. []rune(s) yields a fresh backing array equal to the
@@ -682,6 +706,9 @@ func (g *Gen) stringSliceConv(in *ssa.Convert, x *SV, st *State) bool {
 		case types.Int32:
 			g.declRuneFuns()
 			g.define(in, fmt.Sprintf("(ext.runestr (select %[1]s (s-ref %[2]s)) (s-off %[2]s) (+ (s-off %[2]s) (s-len %[2]s)))", E, x.S))
+			return true
+		case types.Uint8:
+			g.define(in, g.bytesToString(x.S, st))
 			return true
 		}
 	}
@@ -929,7 +956,7 @@ func (g *Gen) ret(in *ssa.Return, st *State, reach string) {
 		g.lightGoal(po, cl.E, env, reach)
 	}
 	// frame: heaps not listed in modifies are unchanged on pre-existing objects
-	if !g.con.ModAll && !g.pa {
+	if !g.con.ModAll {
 		mods := g.modifiesKeys(g.con, g.pkgTypes())
 		for _, k := range sortedKeys(st.heaps) {
 			if mods[k] {
@@ -943,10 +970,11 @@ func (g *Gen) ret(in *ssa.Return, st *State, reach string) {
 			g.uses["quant"] = true
 			g.addObl("frame", fmt.Sprintf("%s@r%d", k, g.retOrd[in]), implies(reach, fmt.Sprintf("(forall ((r! Int)) (=> (<= r! alloc!0) (= (select %s r!) (select %s r!))))", cur, init)), in.Pos(), "heap "+k+" not in modifies clause is unchanged on existing objects", nil)
 		}
-		for gh := range st.ghost {
-			if !containsStr(g.con.Modifies, gh) {
-				g.addObl("frame", fmt.Sprintf("ghost.%s@r%d", gh, g.retOrd[in]), implies(reach, "(= "+st.ghost[gh]+" "+g.ghostGet(g.entry, gh)+")"), in.Pos(), "ghost "+gh+" unchanged", nil)
-			}
+	}
+	// ghost variables not listed in modifies are unchanged (also for PA / "modifies *" functions)
+	for _, gh := range sortedKeys(st.ghost) {
+		if !containsStr(g.con.Modifies, gh) && st.ghost[gh] != g.ghostGet(g.entry, gh) {
+			g.addObl("frame", fmt.Sprintf("ghost.%s@r%d", gh, g.retOrd[in]), implies(reach, "(= "+st.ghost[gh]+" "+g.ghostGet(g.entry, gh)+")"), in.Pos(), "ghost "+gh+" unchanged", nil)
 		}
 	}
 	co := g.addObl("cover", fmt.Sprintf("ret%d", g.retOrd[in]), reach, in.Pos(), fmt.Sprintf("return at line %d reachable", line), nil)
